@@ -512,15 +512,22 @@ func checkRescanSetIncludesLeasedOutputs(c *Ctx, rule string) {
 				if g == nil || fnPkgPath(g) != fnPkgPath(fc) {
 					continue
 				}
-				for _, inner := range callsOf(g) {
-					ic, ok := inner.(*ssa.Call)
-					if !ok || !p.isCallTo(ic, fc) {
+				for _, site := range p.forwardedFlagSites(fc) {
+					if site.Decider().Parent() != g {
+						continue
+					}
+					ic, ok := site.Inner.(*ssa.Call)
+					if !ok {
 						continue
 					}
 					n++
 					a := p.argNamed(ic, "includeLocked", 2)
-					k, isK := stripConv(a).(*ssa.Const)
-					okInc := a != nil && isK && k.Value != nil && k.Value.String() == "true"
+					okInc := false
+					if a != nil {
+						if b, isK := p.constBoolVia(a, site.Outer); isK && b {
+							okInc = true
+						}
+					}
 					c.Check(rule, "rescan-set-includes-leased-outputs:"+name, call.Pos(), okInc,
 						"the outpoints "+name+" asks the backend to watch come from "+fnName(g)+", which leaves leased outputs out: a lease alive across a restart takes its output off the watch list, a confirmed spend of it is never reported, the lease is not removed and the spent output returns to the spendable set at expiry")
 				}
